@@ -128,6 +128,20 @@ Inductive tv :=
 | TVAscii (s : string)
 | TVProtoBytes (s : string).
 
+
+(** a nil message somewhere in the value: the nil TypedValue, a decimal arm
+    with nil Decimal64, a leaf-list arm with nil ScalarArray, directly or as
+    an element of a leaf-list (the class of DEFECT C19_1 / C19_2) *)
+Definition tvs_exists (f : tv -> bool) : list tv -> bool :=
+  fix go l := match l with [] => false | x :: l' => f x || go l' end.
+
+Fixpoint has_nil (t : tv) : bool :=
+  match t with
+  | TVnil | TVDecimalNil | TVLeaflistNil => true
+  | TVLeaflist l => tvs_exists has_nil l
+  | _ => false
+  end.
+
 (** * Equal *)
 
 Definition panic_nil_deref : N := 1.
